@@ -49,14 +49,14 @@ func (ml MultiLineString) Distance(p Point) float64 {
 
 // Clip returns the part of the receiver that falls within the given polygon.
 func (ml MultiLineString) Clip(p Polygonal) Linear {
-	pTemp := make(Polygon, len(ml))
-	for i, l := range ml {
-		pTemp[i] = Path(l)
-	}
-	pTemp = pTemp.op(p, polyclip.CLIPLINE)
-	o := make(MultiLineString, len(pTemp))
-	for i, pp := range pTemp {
-		o[i] = LineString(pp[0 : len(pp)-1])
+	// The members are clipped one at a time: handed to the clipper together,
+	// members that meet at their end points are joined into one chain, and a
+	// chain that closes on itself is taken for a ring and dropped.
+	o := make(MultiLineString, 0, len(ml))
+	for _, l := range ml {
+		for _, pp := range (Polygon{Path(l)}).op(p, polyclip.CLIPLINE) {
+			o = append(o, LineString(pp[0:len(pp)-1]))
+		}
 	}
 	return o
 }
